@@ -68,6 +68,7 @@ def run_scan(events, interval_ms, idle, pre_events=None, bauds=(115200, None)):
 
 
 def check(tier, seed):
+    check._n_two = 1          # the first two-sentence stream of a run has no line end after its first sentence
     res = C.Result('C18', tier, seed)
     res.rule = ('byte streams delivered one byte (or nothing) per read through a stub serial port under a virtual clock: noise, single frames, '
                 'two UBX frames / two NMEA sentences separated by sync-free filler, one of each, corrupted frames, frames completing just before / '
@@ -116,6 +117,13 @@ def check(tier, seed):
                 s = junk() + fr() + junk() + fr()
             elif kind == 'two_nmea':
                 s = nm() + rng.choice([b'', b'\xb5b\x01']) + nm()
+                # the line end of the first sentence varies (cycled, no extra random draw): CR LF, nothing, CR only, a blank
+                n_two = getattr(check, '_n_two', 0)
+                check._n_two = n_two + 1
+                term = (b'\r\n', b'', b'\r', b' ')[n_two % 4]
+                if term != b'\r\n' and s.count(b'\r\n') >= 1:
+                    k_ = s.index(b'\r\n')
+                    s = s[:k_] + term + s[k_ + 2:]
             elif kind == 'mixed':
                 s = fr() + nm()
             elif kind == 'bad_ubx':
